@@ -55,6 +55,67 @@ claim('C02',
                     'numbers not in stored form, -x% association, double percent. Known finding F-C02-01 (% encoding precedence).',
       '§7 C02')
 
+claim('C11',
+      'TLA+ spec XlReader (storage forms, LoadCell, shared-formula Shift/Render, Load with ignore set); TLC enumerates abstract '
+      'workbooks; each is written as .xlsx bytes by harness/xlsxwriter_min.py, loaded by read_and_parse_archive and compared clause '
+      'by clause; the 65 fixture workbooks and seeded random workbooks are read by an independent stdlib XML reader and validated by TLC (Trace_C11)',
+      'TLC enumerates workbooks over sheets with plain, blank-containing, apostrophe-containing and non-ASCII names: every '
+      'SpreadsheetML storage form (n, s, str, inlineStr, b, e, date style, formula with/without cached value, shared master and '
+      'members) pairwise as neighbours, shared formulas with the master at block corners and relative/mixed/absolute/cross-sheet '
+      'references, every subset of ignored sheets, names bound to cells and ranges. Laws of Shift (identity, additivity, $ fixed, '
+      'member-back) and of Load (ignore = restriction, one cell per stored cell) are TLC invariants. The loaded model is compared '
+      'on cells, values, formula texts, formulae keys, names, get_cell_value before evaluation, and evaluation against both the spec '
+      'and a read_and_parse_dict model of the same content.',
+      COMMON_NOTE + ' Also trusted: harness/xlsxwriter_min.py and the check\'s own zipfile/ElementTree reader. Left open: array '
+                    'formulas, data tables, hidden names, custom date-looking formats, times of day, rich text, ignore_hidden, 1904 system.',
+      '§7 C11')
+claim('C14',
+      'TLA+ spec XlAgg (folds over argument lists and arrays); TLC enumerates fill patterns / splits / orders and checks the '
+      'property\'s laws as invariants; dump replayed through direct Array calls and compiled formulas over real ranges; seeded '
+      'rectangles validated by TLC (Trace_C14)',
+      'All 3^9 fill patterns of a 3x3 block with number/blank/text (all for AVERAGE, hashed thirds/ninths for the rest in quick; all '
+      'in thorough), all 2x3 patterns for every function, splits of ranges into sub-rectangles plus scalars in every argument '
+      'order, overlapping sub-rectangles, SUMPRODUCT over equal and unequal shapes. Laws as TLC invariants on the spec: argument and '
+      'cell permutation invariance, SUM additivity over every split, MIN <= AVERAGE <= MAX, COUNT <= COUNTA. Seeded rectangles up '
+      'to 10x10 split into <= 4 arguments are evaluated by the library and validated by TLC.',
+      COMMON_NOTE + ' Left open: no number at all for AVERAGE/MIN/MAX, non-number scalar arguments, booleans/dates/errors in ranges.',
+      '§7 C14')
+claim('C15',
+      'TLA+ spec XlCrit (criterion parsing on code points, Matches, COUNTIF(S)/SUMIF(S) folds, MATCH, VLOOKUP, CHOOSE); TLC '
+      'enumerates columns/tables x criteria x keys x indexes with 14 laws as invariants; dump replayed through direct calls and '
+      'formulas over real ranges; seeded tables validated by TLC (Trace_C15)',
+      'Columns of length <= 4 over numbers and texts (case variants) x every operator prefix with numeric (negative, decimal) and '
+      'text operands and plain values; COUNTIFS with 2-3 criteria columns; 3x3 tables with the key at every position, absent and '
+      'duplicated; every column index 0..4; ascending vectors with keys at, between, below and above; CHOOSE indexes -1..5. Laws '
+      '(count = hit set, partition by = / <>, type restriction of ordering criteria, case-insensitivity, COUNTIFS conjunction, '
+      'MATCH exact/approximate, VLOOKUP column) are TLC invariants. SUMIF/SUMIFS are compared only if the installed pandas '
+      'supports them (start-up probe).',
+      COMMON_NOTE + ' Left open: wildcards, blanks in criteria ranges, numeric-looking text cells, match_type -1, approximate VLOOKUP.',
+      '§7 C15')
+claim('C19',
+      'TLA+ spec XlBits (two\'s-complement bit sequences, decimal<->bits on digit sequences, regrouping, padding and error rules); '
+      'TLC enumerates the whole binary window x places x 12 functions with 8 laws as invariants; dump replayed through 5 call '
+      'paths; BASES.xlsx (2741 Excel-computed conversions) anchors the spec; seeded 40-bit calls validated by TLC (Trace_C19)',
+      'Exhaustive: every integer in -520..520 (superset of the binary window) x places in {omitted, 0..11} x all twelve functions '
+      'in several source spellings; octal/hex window boundaries +-4 and powers of two +-1; 300 pseudo-random 30/40-bit patterns; '
+      'every invalid digit class. Laws (there-and-back identity, alphabet/upper case/length, padding, error codes) are TLC '
+      'invariants; the bit/digit machinery is shown equal to integer arithmetic where that fits. A sub-check evaluates =DEC2BIN(5) '
+      'in a fresh process importing only the package.',
+      COMMON_NOTE + ' Left open: places as text/fraction/blank, fractional or textual numbers for DEC2x, error arguments.',
+      '§7 C19')
+claim('C20',
+      'TLA+ spec XlFin (NPV, PMT, PV, SLN, XNPV over guarded exact rationals; IsRoot for IRR/XIRR on constructed flows); 13 laws as '
+      'TLC invariants; dump replayed through native/wrapped/mixed/formula paths; seeded vectors validated by TLC (Trace_C20) with '
+      'harness-computed residuals where exponents are fractional',
+      'Rates from a grid incl. negative and zero x flow vectors of length <= 4 (quick) x (rate, nper, pv, fv, type) and (cost, '
+      'salvage, life) grids; IRR/XIRR flows constructed from a chosen root with one sign change so the root is unique. Laws on the '
+      'spec: linearity of NPV/XNPV, PV(PMT)=pv and inverse with fv, rate-0 reductions, root uniqueness and monotonicity. Seeded '
+      'vectors up to length 30 with increasing dates are validated by TLC; exact rational arithmetic wherever exponents are whole, '
+      'Python floats (trusted) only for fractional exponents.',
+      COMMON_NOTE + ' Left open: VDB, PMT type=1, guess, life <= 0, nper <= 0, IRR/XIRR outside the uniqueness condition. '
+                    'Known finding F-C20-01.',
+      '§7 C20')
+
 ALL = ['C%02d' % i for i in range(1, 21)]
 
 
